@@ -52,25 +52,38 @@ fn main() {
             let nthreads = pool::threads();
             let nshards = std::env::var("VERIF_SHARDS").ok().and_then(|s| s.parse().ok()).unwrap_or(nthreads * 3);
             let exe = std::env::current_exe().unwrap();
+            // other build variants of the harness (features / profiles) whose shards are run too
+            let mut bins: Vec<(String, std::path::PathBuf)> = vec![("".into(), exe.clone())];
+            if let Ok(vs) = std::env::var("DSIV_VARIANTS") {
+                for v in vs.split_whitespace() {
+                    if let Some((name, path)) = v.split_once('=') {
+                        bins.push((name.to_string(), path.into()));
+                    }
+                }
+            }
             let tmp = format!("{}/harness/target/shards-{}-{}", verif_dir, id, std::process::id());
             let _ = std::fs::create_dir_all(&tmp);
             let diag_json = serde_json::to_string(&diag).unwrap();
             let next = std::sync::Mutex::new(0usize);
             let results: std::sync::Mutex<Vec<(usize, Result<String, String>)>> = std::sync::Mutex::new(vec![]);
+            let total_jobs = nshards * bins.len();
             std::thread::scope(|sc| {
-                for _ in 0..nthreads.min(nshards) {
+                for _ in 0..nthreads.min(total_jobs) {
                     sc.spawn(|| loop {
-                        let i = {
+                        let job = {
                             let mut n = next.lock().unwrap();
-                            if *n >= nshards {
+                            if *n >= total_jobs {
                                 break;
                             }
                             *n += 1;
                             *n - 1
                         };
-                        let outfile = format!("{}/{}.json", tmp, i);
-                        let st = std::process::Command::new(&exe)
+                        let (vname, vexe) = &bins[job / nshards];
+                        let i = job % nshards;
+                        let outfile = format!("{}/{}-{}.json", tmp, job / nshards, i);
+                        let st = std::process::Command::new(vexe)
                             .args(["shard", &id, &tier, &i.to_string(), &nshards.to_string(), &outfile])
+                            .env("DSIV_VARIANT", vname)
                             .env("DSIV_DIAG", &diag_json)
                             .env("VERIF_THREADS", "1")
                             .env("VERIF_SEED", seed.to_string())
@@ -83,7 +96,7 @@ fn main() {
                             },
                             Err(e) => Err(format!("cannot spawn shard {}: {}", i, e)),
                         };
-                        results.lock().unwrap().push((i, r));
+                        results.lock().unwrap().push((job, r));
                     });
                 }
             });
@@ -171,7 +184,18 @@ fn main() {
                 let _ = std::fs::write(&of, serde_json::to_string(&doc).unwrap());
                 std::process::exit(0);
             });
-            let (meta, out) = props::run(&id, &ctx);
+            let (meta, mut out) = props::run(&id, &ctx);
+            if let Ok(v) = std::env::var("DSIV_VARIANT") {
+                if !v.is_empty() {
+                    let cfgs: Vec<String> = out.cov.configs.iter().map(|c| format!("{}+{}", c, v)).collect();
+                    out.cov.configs = cfgs.into_iter().collect();
+                    for x in out.violations.iter_mut() {
+                        x.config = format!("{}+{}", x.config, v);
+                        x.replay["variant"] = serde_json::json!(v);
+                    }
+                    out.cov.notes = out.cov.notes.iter().map(|n| format!("[{}] {}", v, n)).collect();
+                }
+            }
             let doc = serde_json::json!({"meta": meta, "outcome": out});
             std::fs::write(&outfile, serde_json::to_string(&doc).unwrap()).expect("write shard output");
             std::process::exit(0);
